@@ -8,6 +8,7 @@ from claripy.errors import ClaripyZeroDivisionError, ClaripyOperationError
 from lib import exprs as E
 
 AC_OPS = {"add", "mul", "and", "or", "xor", "And", "Or"}         # rewrites of these nodes not explained by a schema go to the AC certificate check
+RAW_TOP = {"S3.sub_addN"}                          # schemas whose right-hand side's root is created without simplification
 COMPLETE_OPS = {"shl", "Not", "not", "ite"}      # simplifier fully covered by the rule table (first-match enforced)
 
 
@@ -174,7 +175,13 @@ class StepChecker:
             hit = None
             for name, rhs in cands:
                 try:
-                    cand_ast = E.build(E.parse_sexpr(rhs), None, memo)
+                    rt_ = E.parse_sexpr(rhs)
+                    if name in RAW_TOP and rt_[0] in E.BIN_INFIX:
+                        # the simplifier creates this node with make_like(..., simplify=False): all operands in one raw node
+                        kids = [E.build(x, None, memo) for x in rt_[1:]]
+                        cand_ast = kids[0].make_like(E.BIN_INFIX[rt_[0]], tuple(kids))
+                    else:
+                        cand_ast = E.build(rt_, None, memo)
                 except Exception:
                     continue
                 if cand_ast is r:
